@@ -29,7 +29,7 @@ NAMES = [None, "bob", "Zoë", "名前", "a b", "0", "None", "x" * 40]
 def floors(tier):
     q = tier == "quick"
     return {"ctor/rating": 60000 if q else 1000000, "ctor/create_rating": 25000 if q else 400000,
-            "deepcopy": 25000 if q else 400000, "league/step": 12000 if q else 250000, "ctor/falsy": 20000 if q else 300000}
+            "deepcopy": 25000 if q else 400000, "deepcopy/fresh": 10000 if q else 200000, "league/step": 12000 if q else 250000, "ctor/falsy": 20000 if q else 300000}
 
 
 def generate(ctx):
@@ -108,6 +108,25 @@ def probe_ctor(ctx, payload):
         ids.add(r.id)
         made.append(r)
         ctx.case([model_name, how, repr(mu), repr(sg), name], falsy)
+    # deepcopy of FRESH objects, taken before the monitor (or anything else) has read any attribute of the original:
+    # a lazily initialised field must still be preserved by the copy
+    for how, mu, sg, name in payload["items"][:6]:
+        try:
+            r = model.create_rating([mu, sg], name) if how.startswith("create") else model.rating(mu, sg, name)
+            c = copy.deepcopy(r)
+            n2 = copy.deepcopy([[model.rating(mu, sg, name)], [model.rating(sg, mu, name)]])
+        except Exception as e:  # noqa: BLE001
+            ctx.ev("deepcopy")
+            ctx.violation("deepcopy/exception", "ctor", payload, dict(exc=repr(e)), model_name, "fresh")
+            continue
+        ctx.ev("deepcopy")
+        ctx.ev("deepcopy/fresh")
+        if c is r or c.id != r.id or c.name != r.name or not _exact(c.mu, r.mu) or not _exact(c.sigma, r.sigma) or c.id in ids:
+            ctx.violation("deepcopy/fresh", "ctor", payload, dict(orig=[repr(r.mu), repr(r.sigma), r.name, r.id],
+                                                                 copy=[repr(c.mu), repr(c.sigma), c.name, c.id]), model_name, "fresh")
+        ids.add(r.id)
+        if len({p.id for t in n2 for p in t}) != 2:
+            ctx.violation("deepcopy/fresh-nested", "ctor", payload, dict(ids=[[p.id for p in t] for t in n2]), model_name, "fresh")
     # deepcopy contracts
     for r in made[:12]:
         ctx.ev("deepcopy")
